@@ -21,6 +21,8 @@ struct SpaceState {
     /// ack-eliciting packets waiting for an ACK: pn -> (rx time, arrived out of order)
     pending: BTreeMap<u64, (u64, bool)>,
     largest_rx: Option<u64>,
+    /// largest packet number of ours the peer has acknowledged, as far as our RX tap has seen
+    largest_acked_seen: Option<u64>,
     discarded: bool,
 }
 
@@ -42,9 +44,11 @@ pub struct C08 {
     /// latest pacer departure time per (ep, remote port)
     edt: HashMap<(EpId, u16), (u64, Option<u64>)>,
     /// genuine intact datagrams delivered: (dst ep, at) -> packets inside
-    delivered: HashMap<(EpId, u64), Vec<(Space, u64)>>,
+    delivered: HashMap<(EpId, u64), (Vec<(Space, u64, Option<u32>)>, u32)>,
     net_corrupts: bool,
     enforce_promptness: bool,
+    /// receive buffer size of each endpoint's socket: larger datagrams are truncated there
+    max_mtu: Vec<u16>,
 }
 
 impl C08 {
@@ -59,7 +63,10 @@ impl C08 {
             edt: HashMap::new(),
             delivered: HashMap::new(),
             net_corrupts: p.net.phases.iter().any(|p| p.corrupt > 0.0 || p.truncate > 0.0),
-            enforce_promptness: p.knob("c08_promptness") != 0,
+            enforce_promptness: p.knob("c08_promptness") != 0 || std::env::var("VQ_C08_PROMPT").is_ok(),
+            max_mtu: std::iter::once(p.server.max_mtu)
+                .chain(p.clients.iter().map(|c| c.cfg.max_mtu))
+                .collect(),
         }
     }
 }
@@ -68,6 +75,12 @@ const GRANULARITY_US: u64 = 1_000;
 
 impl Monitor for C08 {
     fn on_rx(&mut self, cx: &mut Ctx, p: &Pkt) {
+        if let Some((pkts, _)) = self.delivered.get_mut(&(p.ep, p.t)) {
+            if let Some(i) = pkts.iter().position(|x| (x.0, x.1) == (p.space, p.pn)) {
+                pkts.swap_remove(i);
+                cx.summary.count("c08.genuine_authenticated", 1);
+            }
+        }
         let c = self.conns.entry((p.ep, p.conn)).or_default();
         let s = &mut c.spaces[p.space.idx()];
         if !s.received.insert(p.pn) {
@@ -84,6 +97,13 @@ impl Monitor for C08 {
         }
         if p.ack_eliciting() && p.space == Space::App {
             s.pending.insert(p.pn, (p.t, out_of_order));
+        }
+        for f in &p.frames {
+            if let Frame::Ack { largest, .. } = f {
+                if s.largest_acked_seen.map(|l| *largest > l).unwrap_or(true) {
+                    s.largest_acked_seen = Some(*largest);
+                }
+            }
         }
         // a packet carrying CONNECTION_CLOSE ends the obligation to acknowledge
         if p.frames.iter().any(|f| matches!(f, Frame::ConnectionClose { .. })) {
@@ -154,9 +174,11 @@ impl Monitor for C08 {
                             let mut cause = "unexplained";
                             if closed {
                                 cause = "closing";
-                            } else if prev_tx_t <= t_rx {
-                                // no transmission at all between receipt and this ACK: was the
-                                // pacer holding the connection back?
+                            } else {
+                                // was the pacer holding the connection back until just now? (the
+                                // departure time recorded at the last controller call before this
+                                // packet lies after the ack was due and is only now reached)
+                                let _ = prev_tx_t;
                                 for port in &ports {
                                     if let Some((_, Some(edt))) = self.edt.get(&(p.ep, *port)) {
                                         if *edt + GRANULARITY_US >= p.t && *edt > t_rx + mad {
@@ -229,23 +251,51 @@ impl Monitor for C08 {
             } => {
                 cx.summary.count("c08.decrypt_failed_events", 1);
                 // (d) was a genuine intact datagram delivered to this endpoint at this instant?
-                if let Some(pkts) = self.delivered.get(&(ep, t)) {
-                    let relevant = match space_pn {
-                        Some((sp, _)) => pkts.iter().any(|(s, _)| s == sp),
-                        None => true,
-                    };
-                    let discarded = space_pn
-                        .map(|(sp, _)| c.spaces[sp.idx()].discarded)
-                        .unwrap_or(false);
-                    if relevant && !discarded && !c.closed {
-                        cx.violate(
-                            "C08",
-                            "genuine-packet-undecryptable",
-                            format!(
-                                "ep{ep} c{conn}: a genuine, intact datagram delivered at {t}us carrying {pkts:?} was dropped: {reason} (receiver reconstructed {space_pn:?})"
-                            ),
-                            json!({"ep": ep, "conn": conn, "t": t, "sent": format!("{pkts:?}"), "reconstructed": format!("{space_pn:?}")}),
-                        );
+                if let Some((pkts, nonintact)) = self.delivered.get_mut(&(ep, t)) {
+                    if *nonintact > 0 {
+                        // a garbled / truncated / forged datagram arrived at the same instant:
+                        // the failure is attributed to it
+                        *nonintact -= 1;
+                        cx.summary.count("c08.decrypt_failed_attributed_to_nonintact", 1);
+                    } else {
+                        // packets that arrived so late that the receiver's largest received
+                        // number has moved beyond the truncation window cannot be expanded
+                        // (RFC 9000 A.3 only promises it relative to the window): not candidates
+                        let mut late = 0;
+                        pkts.retain(|(s, pn, bits)| {
+                            if let (Some(bits), Some(lr)) = (bits, c.spaces[s.idx()].largest_rx) {
+                                let bits = bits * 8;
+                                let mask = if bits >= 64 { u64::MAX } else { (1u64 << bits) - 1 };
+                                if vq_wire::pn_decode(Some(lr), pn & mask, bits) != *pn {
+                                    late += 1;
+                                    return false;
+                                }
+                            }
+                            true
+                        });
+                        if late > 0 {
+                            cx.summary.count("c08.undecodable_beyond_window", late);
+                            cx.feature("late_beyond_pn_window");
+                        }
+                        let relevant = late == 0
+                            && match space_pn {
+                                Some((sp, _)) => pkts.iter().any(|(s, _, _)| s == sp),
+                                None => !pkts.is_empty(),
+                            };
+                        let discarded = space_pn
+                            .map(|(sp, _)| c.spaces[sp.idx()].discarded)
+                            .unwrap_or(false);
+                        if relevant && !discarded && !c.closed {
+                            let pk = pkts.clone();
+                            cx.violate(
+                                "C08",
+                                "genuine-packet-undecryptable",
+                                format!(
+                                    "ep{ep} c{conn}: a genuine, intact datagram delivered at {t}us (not yet authenticated packets of that instant: {pk:?}) was dropped: {reason} (receiver reconstructed {space_pn:?})"
+                                ),
+                                json!({"ep": ep, "conn": conn, "t": t, "sent": format!("{pk:?}"), "reconstructed": format!("{space_pn:?}")}),
+                            );
+                        }
                     }
                 }
             }
@@ -253,16 +303,63 @@ impl Monitor for C08 {
         }
     }
 
-    fn on_delivered(&mut self, cx: &mut Ctx, w: &Wire, at: u64) {
-        if w.injected || w.pkts.is_empty() {
+    fn on_wire(&mut self, cx: &mut Ctx, w: &Wire, _fate: &Fate) {
+        // (d) sender side: the truncated packet number must expand to the full one for a peer
+        // that knows nothing but the largest packet number it has acknowledged
+        if w.injected {
             return;
         }
+        let Some(src) = w.src else { return };
+        let Some(m) = cx.dgram_meta.get(&vq_util::fnv(&w.bytes)) else { return };
+        let (Some(n), Some((conn, space, pn))) = (m.pn_len, m.pkts.first().copied()) else {
+            return;
+        };
+        let Some(c) = self.conns.get(&(src, conn)) else { return };
+        let la = c.spaces[space.idx()].largest_acked_seen;
+        let bits = n * 8;
+        let mask = (1u64 << bits) - 1;
+        cx.summary.count("c08.truncations_checked", 1);
+        cx.summary.count(&format!("c08.pn_len_{n}"), 1);
+        let got = vq_wire::pn_decode(la, pn & mask, bits);
+        if got != pn {
+            cx.violate(
+                "C08",
+                "pn-truncation-ambiguous",
+                format!(
+                    "ep{src} c{conn} {space:?}: packet {pn} was sent with a {n}-byte packet number while the largest acknowledged is {la:?}: a peer expanding it from that knowledge obtains {got}"
+                ),
+                json!({"ep": src, "conn": conn, "pn": pn, "pn_len": n, "largest_acked": la, "decoded": got}),
+            );
+        } else if n < 4 {
+            // how close to the edge of the window was it?
+            let dist = pn - la.map(|l| l + 1).unwrap_or(0);
+            cx.summary.max("c08.max_pn_distance_over_window_permille", (dist * 1000 / (1u64 << (bits - 1))) as i64);
+        }
+    }
+
+    fn on_delivered(&mut self, cx: &mut Ctx, w: &Wire, at: u64) {
         let Some(dst) = w.dst else { return };
+        if w.injected || w.pkts.is_empty() {
+            // garbled in transit / forged / not produced by a connection: may fail decryption
+            self.delivered.entry((dst, at)).or_default().1 += 1;
+            return;
+        }
+        if w.bytes.len() > self.max_mtu.get(dst).copied().unwrap_or(u16::MAX) as usize {
+            // the receiving socket's buffer is max_mtu bytes: the datagram arrives truncated
+            cx.summary.count("c08.deliveries_truncated_by_receiver_mtu", 1);
+            self.delivered.entry((dst, at)).or_default().1 += 1;
+            return;
+        }
         cx.summary.count("c08.genuine_deliveries", 1);
+        let pn_len = cx
+            .dgram_meta
+            .get(&vq_util::fnv(&w.bytes))
+            .and_then(|m| m.pn_len);
         self.delivered
             .entry((dst, at))
             .or_default()
-            .extend(w.pkts.iter().map(|(_, s, pn)| (*s, *pn)));
+            .0
+            .extend(w.pkts.iter().map(|(_, s, pn)| (*s, *pn, pn_len)));
         // keep the map small
         if self.delivered.len() > 4096 {
             let cutoff = at.saturating_sub(2_000_000);
